@@ -2,6 +2,7 @@
 package lease_set2
 
 import (
+	"crypto/ed25519"
 	"encoding/binary"
 	"sort"
 	"strings"
@@ -13,6 +14,7 @@ import (
 	"github.com/go-i2p/common/lease"
 	"github.com/go-i2p/common/offline_signature"
 	sig "github.com/go-i2p/common/signature"
+	"github.com/go-i2p/crypto/types"
 	"github.com/go-i2p/logger"
 	"github.com/samber/oops"
 )
@@ -1004,9 +1006,17 @@ func createLeaseSet2Signature(signingKey interface{}, data []byte, sigType uint1
 			Errorf("unknown signature type: %d", sigType)
 	}
 
-	// TODO: Implement actual signing using the signingKey
-	// This would call into crypto/signature package to create real signatures
-	// For now, return an empty signature of the correct size
+	// A private key was supplied: produce a real signature over the type-prefixed content, so that
+	// Verify() succeeds on what this constructor returns. Only a nil key keeps the historical
+	// unsigned placeholder (a zero signature of the correct size).
+	if signingKey != nil {
+		signatureData, err := signLeaseSet2Data(signingKey, data)
+		if err != nil {
+			return sig.Signature{}, err
+		}
+		return sig.NewSignatureFromBytes(signatureData, int(sigType))
+	}
+
 	signatureData := make([]byte, sigSize)
 	signature, err := sig.NewSignatureFromBytes(signatureData, int(sigType))
 	if err != nil {
@@ -1020,4 +1030,31 @@ func createLeaseSet2Signature(signingKey interface{}, data []byte, sigType uint1
 	}).Warn("Created placeholder signature - implement actual signing")
 
 	return signature, nil
+}
+
+// signLeaseSet2Data signs data with the private key representations also accepted by
+// encrypted_leaseset.NewEncryptedLeaseSet, plus any types.SigningPrivateKey of go-i2p/crypto.
+func signLeaseSet2Data(signingKey interface{}, data []byte) ([]byte, error) {
+	switch key := signingKey.(type) {
+	case types.SigningPrivateKey:
+		signer, err := key.NewSigner()
+		if err != nil {
+			return nil, oops.Errorf("failed to create signer: %w", err)
+		}
+		return signer.Sign(data)
+	case ed25519.PrivateKey:
+		if len(key) != ed25519.PrivateKeySize {
+			return nil, oops.Errorf("invalid Ed25519 private key size: %d", len(key))
+		}
+		return ed25519.Sign(key, data), nil
+	case [64]byte:
+		return ed25519.Sign(key[:], data), nil
+	case []byte:
+		if len(key) != ed25519.PrivateKeySize {
+			return nil, oops.Errorf("byte slice signing key must be %d bytes for Ed25519, got %d", ed25519.PrivateKeySize, len(key))
+		}
+		return ed25519.Sign(key, data), nil
+	default:
+		return nil, oops.Errorf("unsupported signing key type: %T", signingKey)
+	}
 }
